@@ -11,7 +11,7 @@ ASSUMPTIONS = ['worlds are enumerated: bases of <= 6 atoms (incl. query atoms ou
 TRUSTED = []
 FLOOR = {'quick': 300, 'thorough': 3000}
 BUDGET = {'quick': 80, 'thorough': 900}
-N = {'quick': 900, 'thorough': 12000}
+N = {'quick': 2500, 'thorough': 30000}
 FAMILIES = [('chain', 8), ('indep', 16), ('d4', 18)]
 selftest = opcommon.selftest_birds
 
